@@ -278,6 +278,32 @@ func c15(r *core.Report) {
 			continue
 		}
 		c := pair[0] + "/" + pair[1]
+		// The header may be built by a helper of the package that the mux function hands its channel id to
+		// (stringHeader(c)), and the vector may be assembled by a helper it hands the header and the payload to
+		// (prependHeader(header, x)). entry is the registered mux function; from here on mf is the function that
+		// holds the codec call and cidParam its parameter that carries the channel id.
+		entry := mf
+		cidParam := ssa.Value(mf.Params[0])
+		if fams0, _ := codecCalls(mf, "enc"); len(fams0) == 0 {
+			for _, in := range core.AllInstrs(entry) {
+				hc, ok := in.(*ssa.Call)
+				if !ok {
+					continue
+				}
+				g := core.StaticCallee(hc.Common())
+				if g == nil || g.Pkg != entry.Pkg || g.Blocks == nil {
+					continue
+				}
+				if fg, _ := codecCalls(g, "enc"); len(fg) == 0 {
+					continue
+				}
+				for ai, a := range hc.Call.Args {
+					if core.Through(a) == ssa.Value(entry.Params[0]) && ai < len(g.Params) {
+						mf, cidParam = g, ssa.Value(g.Params[ai])
+					}
+				}
+			}
+		}
 		ef, ecalls := codecCalls(mf, "enc")
 		dfm, dcalls := codecCalls(df, "dec")
 		sort.Strings(ef)
@@ -321,6 +347,9 @@ func c15(r *core.Report) {
 								continue
 							}
 							if _, ok := codecFamily[core.CalleeName(cc)]; ok {
+								continue
+							}
+							if g := core.StaticCallee(cc); g != nil && g.Pkg == entry.Pkg && g.Blocks != nil && onlyPlacedInFreshVector(g, cc.Args, v) {
 								continue
 							}
 							owned = false
@@ -441,7 +470,7 @@ func c15(r *core.Report) {
 			if pair[0] == "stringMuxFunc" {
 				// length prefix = len(c) and the channel bytes follow; decoder reads chanLength bytes
 				lenOK := false
-				if cc, ok := core.Peel(enc.Call.Args[1]).(*ssa.Call); ok && core.IsBuiltin(cc.Common(), "len") && cc.Call.Args[0] == ssa.Value(mf.Params[0]) {
+				if cc, ok := core.Peel(enc.Call.Args[1]).(*ssa.Call); ok && core.IsBuiltin(cc.Common(), "len") && core.Through(cc.Call.Args[0]) == cidParam {
 					lenOK = true
 				}
 				r.Check(lenOK, "C15-PAIR", c+" length prefix", p.Pos(enc.Pos()), "the length prefix is len(channel)", "the length prefix is not the channel name's length")
@@ -463,7 +492,7 @@ func c15(r *core.Report) {
 				}
 				r.Check(readOK >= 2, "C15-PAIR", c+" name bytes", p.Pos(df.Pos()), "the decoder reads exactly the announced number of name bytes and the body starts after them", "the decoder does not split name and body at the announced length")
 			} else {
-				r.Check(enc.Call.Args[1] == ssa.Value(mf.Params[0]), "C15-PAIR", c+" encoded value", p.Pos(enc.Pos()), "the encoded value is the channel id", "the encoded value is not the channel id")
+				r.Check(core.Through(enc.Call.Args[1]) == cidParam, "C15-PAIR", c+" encoded value", p.Pos(enc.Pos()), "the encoded value is the channel id", "the encoded value is not the channel id")
 			}
 		}
 		// the codec is on every path: a return that bypasses the encoder (hand-rolled fast
@@ -481,6 +510,19 @@ func c15(r *core.Report) {
 				if fam != "uvarint" || pair[0] != "varintMuxFunc" || !singleByteFastPath(mf, ret) {
 					okPath = false
 					why = "return at " + p.Pos(ret.Pos()) + " frames the message without going through the codec"
+				}
+			}
+			if entry != mf {
+				isHelperCall := func(in ssa.Instruction) bool {
+					ci, ok := in.(ssa.CallInstruction)
+					return ok && core.StaticCallee(ci.Common()) == mf
+				}
+				re := core.Reach(entry, nil, nil, isHelperCall)
+				for _, ret := range core.Returns(entry) {
+					if re[ret] {
+						okPath = false
+						why = "return at " + p.Pos(ret.Pos()) + " frames the message without going through the header helper"
+					}
 				}
 			}
 			r.Check(okPath, "C15-PAIR", c+" encoder on every path", p.Pos(mf.Pos()), "every framed message is produced by the codec (or by its provably equal one-byte form)", why+": that path's framing is not what the decoder parses, so some channel ids are delivered to another channel or with a damaged payload")
@@ -503,12 +545,51 @@ func c15(r *core.Report) {
 		}
 		// payload appended unchanged after the header; decoder returns a suffix of its input
 		payOK := false
-		for _, ret := range core.Returns(mf) {
-			for _, v := range core.ReturnValues(ret, 0) {
-				if c3, ok := v.(*ssa.Call); ok && core.IsBuiltin(c3.Common(), "append") && core.Peel(c3.Call.Args[1]) == ssa.Value(mf.Params[1]) {
-					payOK = true
+		appendsPayload := func(fn *ssa.Function, pay ssa.Value) bool {
+			okAll, some := true, false
+			for _, ret := range core.Returns(fn) {
+				for _, v := range core.ReturnValues(ret, 0) {
+					c3, ok := v.(*ssa.Call)
+					if ok && core.IsBuiltin(c3.Common(), "append") && core.Peel(c3.Call.Args[1]) == pay {
+						some = true
+					} else {
+						okAll = false
+					}
 				}
 			}
+			return okAll && some
+		}
+		if appendsPayload(entry, ssa.Value(entry.Params[1])) {
+			payOK = true
+		} else {
+			// every return of the entry is the result of one same-package helper that receives the payload
+			// parameter unchanged and appends it after what it was given
+			okAll, some := true, false
+			for _, ret := range core.Returns(entry) {
+				for _, v := range core.ReturnValues(ret, 0) {
+					hc, ok := v.(*ssa.Call)
+					g := (*ssa.Function)(nil)
+					if ok {
+						g = core.StaticCallee(hc.Common())
+					}
+					if g == nil || g.Pkg != entry.Pkg || g.Blocks == nil {
+						okAll = false
+						continue
+					}
+					found := false
+					for ai, a := range hc.Call.Args {
+						if core.Through(a) == ssa.Value(entry.Params[1]) && ai < len(g.Params) && appendsPayload(g, ssa.Value(g.Params[ai])) {
+							found = true
+						}
+					}
+					if found {
+						some = true
+					} else {
+						okAll = false
+					}
+				}
+			}
+			payOK = okAll && some
 		}
 		r.Check(payOK, "C15-PAIR", c+" payload", p.Pos(mf.Pos()), "the payload vector is appended unchanged after the header", "the payload is not appended unchanged after the header")
 		sufOK := true
@@ -666,4 +747,60 @@ func isByteSliceT(t types.Type) bool {
 	}
 	b, ok := s.Elem().Underlying().(*types.Basic)
 	return ok && b.Kind() == types.Byte
+}
+
+// onlyPlacedInFreshVector: helper g receives the header (the argument equal to v) and does nothing with that
+// parameter but append it, as one element, to a vector it builds itself (no store into a field or global, no defer,
+// no further call that receives it).
+func onlyPlacedInFreshVector(g *ssa.Function, args []ssa.Value, v ssa.Value) bool {
+	idx := -1
+	for i, a := range args {
+		if a == v {
+			idx = i
+		}
+	}
+	if idx < 0 || idx >= len(g.Params) {
+		return false
+	}
+	prm := g.Params[idx]
+	var refs []ssa.Instruction
+	collect := func(x ssa.Value) {
+		if x.Referrers() != nil {
+			refs = append(refs, *x.Referrers()...)
+		}
+	}
+	collect(prm)
+	for i := 0; i < len(refs); i++ {
+		switch x := refs[i].(type) {
+		case *ssa.Store:
+			// the varargs array of append(ret, header), or the spill of the parameter
+			if x.Val != ssa.Value(prm) {
+				if u, isU := x.Val.(*ssa.UnOp); !isU || core.Through(u) != ssa.Value(prm) {
+					continue
+				}
+			}
+			switch a := x.Addr.(type) {
+			case *ssa.IndexAddr:
+				if _, local := a.X.(*ssa.Alloc); !local {
+					return false
+				}
+			case *ssa.Alloc:
+				collect(a)
+			default:
+				return false
+			}
+		case *ssa.UnOp:
+			collect(x)
+		case *ssa.DebugRef:
+		case ssa.CallInstruction:
+			return false
+		case *ssa.Return:
+			return false
+		default:
+			if _, isVal := x.(ssa.Value); isVal {
+				return false
+			}
+		}
+	}
+	return true
 }
